@@ -570,20 +570,11 @@ def shadowed (s : St) (n : Nat) : Bool :=
   | some o => (List.range n).any fun m => deadPending s m == some o
   | none => false
 
-/-- would a woken `WaitExited` that re-samples now do anything but park again? (a waiter that has been woken
-but has not yet re-sampled can still do everything a re-parked one can: lazy choice) -/
-def wakeUseful (s : St) (a : Nat) : Bool :=
-  match s.calls[a]? with
-  | some c =>
-    (match c.op with
-     | .waitExited rinr => normCtx s != s || (waitSample s rinr).2 != .parked false
-     | _ => false)
-  | none => false
-
 /-- internal events worth trying -/
 def cands (s : St) : List Ev :=
-  ((List.range s.calls.length).flatMap fun a =>
-    [Ev.cs a, .wctx a] ++ (if wakeUseful s a then [Ev.wake a] else [])) ++
+  -- (a woken `WaitExited` must re-sample: offering `wake` lazily would be wrong at quiescence points, because
+  -- the environment can cancel the root context without any broadcast)
+  ((List.range s.calls.length).flatMap fun a => [Ev.cs a, .wctx a, .wake a]) ++
   ((List.range s.insts.length).flatMap fun n =>
     -- `giveUp` is offered only once the predecessor has exited: a cancelled waiter that has not yet looked
     -- at its channels is indistinguishable from one that already took the ctx branch (lazy choice)
